@@ -10,6 +10,7 @@ import (
 	"bytes"
 	"crypto/rand"
 	"encoding/base64"
+	"encoding/binary"
 	"fmt"
 	"io"
 	mrand "math/rand/v2"
@@ -243,6 +244,22 @@ func TestVerif_C07(t *testing.T) {
 				}
 				r.Count("evaluations", 1)
 			}
+			// forged by someone who does not know the server's key: the ephemeral key is replaced by a
+			// point for which the shared secret does not depend on any private key (low order), and the
+			// identity block is sealed under the secret such a point would give (all zero)
+			if part == 0 {
+				for _, pt := range forgePoints() {
+					forged := gp.forge(pt, rng)
+					if forged == nil {
+						continue
+					}
+					r.Count("evaluations", 1)
+					r.Count("low_order_forgeries", 1)
+					if info, _, err := AuthFirstPacket(forged, gp.tr, freshState(&g.pv, gp.at)); err == nil {
+						viol["accepted-forgery-without-server-key"] = fmt.Sprintf("a first packet built without any knowledge of the server's key (ephemeral key %x..., identity block sealed under the all-zero secret) was accepted as a Cloak handshake for UID %x", pt[:4], info.UID)
+					}
+				}
+			}
 			r.Count("distinct_enumerated", 1)
 			if bi == 0 && part == 0 {
 				r.Sample(map[string]any{"packet": base.Transport + "/" + base.Browser, "bytes": len(gp.first), "sealed_ranges": gp.sealed})
@@ -351,6 +368,8 @@ func TestVerif_C07(t *testing.T) {
 		{"dbuser-sid0", "dbok", "shadowsocks", 0, true, false, false},
 		{"zero-uid-sid0-no-admin-configured", "zero", "shadowsocks", 0, false, false, true},
 		{"zero-uid-sid0", "zero", "shadowsocks", 0, false, false, false},
+		{"unknown-method-joining-live-session", "bypass-live", "nosuchmethod", 7, false, false, false},
+		{"unknown-method-joining-live-session-db", "dbok-live", "nosuchmethod", 7, false, false, false},
 	}
 	for di, dc := range dcases {
 		for ti, transport := range []string{"direct", "cdn"} {
@@ -380,6 +399,11 @@ func TestVerif_C07(t *testing.T) {
 					return uid
 				}
 				var uid []byte
+				live := false
+				if strings.HasSuffix(dc.uidClass, "-live") {
+					live = true
+					dc.uidClass = strings.TrimSuffix(dc.uidClass, "-live")
+				}
 				switch dc.uidClass {
 				case "bypass":
 					uid = bypass
@@ -419,6 +443,19 @@ func TestVerif_C07(t *testing.T) {
 						go func() { io.Copy(&redirGot, c) }()
 					}
 				}()
+				if live {
+					// the same user already has a live session with this id, opened with a served method
+					lc := cliCfg{UID: uid, Method: "shadowsocks", Enc: "aes-gcm", Transport: transport, Browser: "chrome", NumConn: 1, SessionID: dc.sid}
+					_, lremote, lauth, _ := g.clientConfigs(lc)
+					ls := g.makeSession(lremote, lauth, transport)
+					if ls == nil {
+						vkind, vdet = "harness", "could not open the live session"
+						return
+					}
+					lst, _ := ls.OpenStream()
+					lst.Write([]byte("keep this session alive"))
+					vk.Wait()
+				}
 				c := cliCfg{UID: uid, Method: dc.method, Enc: "aes-gcm", Transport: transport, Browser: "chrome", NumConn: 1, SessionID: dc.sid}
 				_, remote, auth, err := g.clientConfigs(c)
 				if err != nil {
@@ -515,4 +552,57 @@ func TestVerif_C07(t *testing.T) {
 	r.Distinct("cases", "window+dispatch")
 	_ = client.RawConfig{}
 	_ = mrand.Int
+}
+
+// forgePoints lists Curve25519 public values of small order (the shared secret with any private
+// key is all zero; crypto libraries report an error for them) and their non-canonical aliases.
+func forgePoints() [][32]byte {
+	var pts [][32]byte
+	var zero, one [32]byte
+	one[0] = 1
+	pts = append(pts, zero, one)
+	// p-1, p, p+1 (little endian), p = 2^255-19
+	for _, d := range []int{-1, 0, 1} {
+		var v [32]byte
+		for i := range v {
+			v[i] = 0xff
+		}
+		v[31] = 0x7f
+		v[0] = byte(0xed + d)
+		pts = append(pts, v)
+	}
+	// the two order-8 points
+	o8a := [32]byte{0xe0, 0xeb, 0x7a, 0x7c, 0x3b, 0x41, 0xb8, 0xae, 0x16, 0x56, 0xe3, 0xfa, 0xf1, 0x9f, 0xc4, 0x6a, 0xda, 0x09, 0x8d, 0xeb, 0x9c, 0x32, 0xb1, 0xfd, 0x86, 0x62, 0x05, 0x16, 0x5f, 0x49, 0xb8, 0x00}
+	o8b := [32]byte{0x5f, 0x9c, 0x95, 0xbc, 0xa3, 0x50, 0x8c, 0x24, 0xb1, 0xd0, 0xb1, 0x55, 0x9c, 0x83, 0xef, 0x5b, 0x04, 0x44, 0x5c, 0xc4, 0x58, 0x1c, 0x8e, 0x86, 0xd8, 0x22, 0x4e, 0xdd, 0xd0, 0x9f, 0x11, 0x57}
+	pts = append(pts, o8a, o8b)
+	return pts
+}
+
+// forge rebuilds the genuine packet with the ephemeral key pt and an identity block sealed under
+// the all-zero shared secret (AES-256-GCM, nonce = first 12 bytes of the key, as the protocol does).
+func (gp *genuine) forge(pt [32]byte, rng *mrand.Rand) []byte {
+	plain := make([]byte, 48)
+	copy(plain, gp.info.UID)
+	copy(plain[16:28], gp.info.ProxyMethod)
+	plain[28] = gp.info.EncryptionMethod
+	binary.BigEndian.PutUint64(plain[29:37], uint64(gp.at.Unix()))
+	binary.BigEndian.PutUint32(plain[37:41], gp.info.SessionId)
+	var zeroKey [32]byte
+	ct, err := common.AESGCMEncrypt(pt[:12], zeroKey[:], plain)
+	if err != nil || len(ct) != 64 {
+		return nil
+	}
+	out := append([]byte{}, gp.first...)
+	if gp.topBit >= 0 && len(gp.sealed) == 3 {
+		copy(out[gp.sealed[0][0]:], pt[:])
+		copy(out[gp.sealed[1][0]:], ct[:32])
+		copy(out[gp.sealed[2][0]:], ct[32:])
+		return out
+	}
+	if len(gp.sealed) == 1 {
+		hid := base64.StdEncoding.EncodeToString(append(append([]byte{}, pt[:]...), ct...))
+		r := gp.sealed[0]
+		return append(append(append([]byte{}, gp.first[:r[0]]...), hid...), gp.first[r[1]:]...)
+	}
+	return nil
 }
